@@ -49,6 +49,23 @@ Proof.
   destruct l as [|r [|r2 l2]]; cbn in H; try discriminate. cbn. rewrite app_nil_r. reflexivity.
 Qed.
 
+(* the two views differ by the inserted spaces only: equal once the spaces are disregarded (the tolerance C07 states) *)
+Definition ttx_nosp (s : str) : str := filter (fun c => negb (c =? 32)) s.
+Definition plain_nosp (p : plain) : plain := map (fun c : pcue => let '(s, e, ls) := c in (s, e, map ttx_nosp ls)) p.
+Lemma nosp_app a b : ttx_nosp (a ++ b) = ttx_nosp a ++ ttx_nosp b.
+Proof. unfold ttx_nosp. apply filter_app. Qed.
+Lemma nosp_join : forall l : list str, ttx_nosp (join [32] l) = ttx_nosp (concat l).
+Proof.
+  induction l as [|x [|y r] IH]; [reflexivity | cbn [join concat]; rewrite app_nil_r; reflexivity|].
+  change (join [32] (x :: y :: r)) with (x ++ [32] ++ join [32] (y :: r)). change (concat (x :: y :: r)) with (x ++ concat (y :: r)).
+  rewrite !nosp_app, IH. reflexivity.
+Qed.
+Theorem spaced_nosp cs : plain_nosp (ttx_to_plain_spaced cs) = plain_nosp (ttx_to_plain cs).
+Proof.
+  unfold plain_nosp, ttx_to_plain_spaced, ttx_to_plain. rewrite !map_map. apply map_ext. intros c. f_equal. rewrite !map_map.
+  apply map_ext. intros l. apply nosp_join.
+Qed.
+
 (* ---- WebVTT (partial) ---- *)
 (* The full statement is the one of ttx_to_srt_styled with convert_ttx_vtt / vtt_dec / vtt_plain_ok.  A coloured run is written
    as <c.red>...</c> when WebVTT has a class for its colour, and the WebVTT write->read theorem (Proofs/VttDoc.v) covers runs
